@@ -67,7 +67,7 @@ def inv_sha256_check(it, st, s):
 
 # upper bound used by the attribute-count argument (L6): 2 * ((len - 20 + 3) / 4) must fit u16, i.e. len <= 131085; the
 # parser establishes len = declared + 20 <= 65555 (C02 length agreement decides the exact equality)
-MSG_MAX = 131072
+MSG_MAX = 65555        # 20 + the largest declared length (u16)
 
 INVARIANTS = {MSG: inv_message, M2T: inv_sha256}
 INVARIANT_CHECKS = {MSG: inv_message_check, M2T: inv_sha256_check}
